@@ -22,7 +22,7 @@ RULE = ("(a) histories of 2-8 connections opening, calling and closing against r
         "non-trivial = more than one connection or thread involved")
 ASSUMPTIONS = ["a slow constructor (sleep) is a legitimate application behaviour that widens the race window without touching Pyro",
                "scheduling points = source lines of Daemon._getInstance (and its nested createInstance) only"]
-REQUIRED_REACH = ["single_ok", "session_ok", "percall_ok", "creator_counts_ok", "failing_creator_ok", "racing_first_calls", "session_instances_dropped", "schedules_explored", "multi_daemon_ok", "oneway_first_requests", "registered_class_inherits_behavior", "registration_changes_ok", "slow_constructor_with_commtimeout"]
+REQUIRED_REACH = ["failing_disconnect_hooks", "single_ok", "session_ok", "percall_ok", "creator_counts_ok", "failing_creator_ok", "racing_first_calls", "session_instances_dropped", "schedules_explored", "multi_daemon_ok", "oneway_first_requests", "registered_class_inherits_behavior", "registration_changes_ok", "slow_constructor_with_commtimeout"]
 SHARD_TIMEOUT = {"quick": 240, "thorough": 2800}
 SHAPES = ["truthy", "falsy_len", "falsy_bool", "eq_always"]
 CREATORS = ["none", "ok", "raises", "raises_type", "wrongtype", "subclass"]     # subclass: the creator returns an instance of a subclass (allowed by the daemon's isinstance check)
@@ -112,8 +112,17 @@ def make_class(P, mode, shape, creator, slow=0.0, inherit=False):
     return Inst, book
 
 
-def socket_case(fx, mode, shape, creator, nconn, ncalls, rec, r, sername, race, inherit=None, slow_override=None):
+def socket_case(fx, mode, shape, creator, nconn, ncalls, rec, r, sername, race, inherit=None, slow_override=None, hook_raises=None):
     P = fx.P
+    if hook_raises is None:
+        hook_raises = mode == "session" and r.random() < 0.35
+    if hook_raises:
+        # the application's own clientDisconnect hook fails (the servers log that and go on): the connection has ended all the same
+        rec.count("failing_disconnect_hooks")
+
+        def failing_hook(conn):
+            raise RuntimeError("application clientDisconnect hook failed")
+        fx.daemon.on_disconnect = failing_hook
     if inherit is None:
         inherit = r.random() < 0.3
     if inherit:
@@ -124,7 +133,7 @@ def socket_case(fx, mode, shape, creator, nconn, ncalls, rec, r, sername, race, 
     cls, book = make_class(P, mode, shape, creator, slow, inherit)
     objid = "cls%d" % r.randrange(10 ** 9)
     fx.daemon.register(cls, objid)
-    pay = {"mode": mode, "shape": shape, "creator": creator, "nconn": nconn, "ncalls": ncalls, "race": race, "servertype": fx.servertype, "serializer": sername, "inherit": inherit, "slow": slow_override, "commtimeout": P.config.COMMTIMEOUT}
+    pay = {"mode": mode, "shape": shape, "creator": creator, "nconn": nconn, "ncalls": ncalls, "race": race, "servertype": fx.servertype, "serializer": sername, "inherit": inherit, "slow": slow_override, "commtimeout": P.config.COMMTIMEOUT, "hook_raises": hook_raises}
     rec.case(("sock", mode, shape, creator, nconn, ncalls, race, fx.servertype, sername, inherit), nontrivial=nconn > 1, sample=pay if rec.evaluations % 40 == 3 else None)
     results = {}
     errors = {}
@@ -284,6 +293,7 @@ def socket_case(fx, mode, shape, creator, nconn, ncalls, rec, r, sername, race, 
                     p._pyroRelease()
                 except Exception:
                     pass
+        fx.daemon.on_disconnect = None
         fx.daemon.unregister(objid)
 
 
@@ -576,6 +586,6 @@ def replay(payload, rec):
     fx = fixture.Fixture(servertype=payload["servertype"], COMMTIMEOUT=payload.get("commtimeout", 0.0), THREADPOOL_SIZE=40, THREADPOOL_SIZE_MIN=2)
     try:
         socket_case(fx, payload["mode"], payload["shape"], payload["creator"], payload["nconn"], payload["ncalls"], rec, r, payload["serializer"], payload["race"], payload.get("inherit", False),
-                    slow_override=payload.get("slow"))
+                    slow_override=payload.get("slow"), hook_raises=payload.get("hook_raises", False))
     finally:
         fx.stop()
